@@ -975,6 +975,25 @@ Proof.
   intros Hok HV HB Hp Hm. rewrite t_dropout_spec by (try assumption; lra). rewrite Hm. field.
 Qed.
 
+(* the ORDER of the two early returns of the source matters (`!enabled` is tested BEFORE
+   `rate == 1.`): the transcription with the tests swapped returns zeros for a disabled dropout of
+   rate 1, contradicting "disabled = identity for every rate" *)
+Definition t_dropout_swapped (x : rten) (rate : R) (enabled : bool) (mask : rten) : rten :=
+  if Req_EM_T rate 1 then t_map R 0%R (fun v => fw_multiply_const v 0) x
+  else if negb enabled then x
+  else t_bin R 0%R fw_multiply (t_map R 0%R (fun v => fw_multiply_const v (1 / (1 - rate))) x) mask.
+
+Theorem t_dropout_swapped_breaks_disabled :
+  exists x mask : rten, rok x /\ t_dropout x 1 false mask = x /\ t_dropout_swapped x 1 false mask <> x.
+Proof.
+  set (x := mkTen (mkT [] 1) [1%R]). exists x, x.
+  assert (Hok : rok x) by (split; [split; [constructor|cbn; lia]|reflexivity]).
+  split; [exact Hok|]. split; [reflexivity|]. intro H. unfold t_dropout_swapped in H.
+  destruct (Req_EM_T 1 1) as [_|C]; [|apply C; reflexivity].
+  apply (f_equal (@tdat R)) in H. rewrite t_map_dat in H by exact Hok. cbn [x tdat map] in H.
+  injection H as H. unfold fw_multiply_const in H. lra.
+Qed.
+
 (* ================================================================== axes at or beyond the depth *)
 (* dim >= depth: the axis has extent 1 and nothing above it; [low, 0, high] is sample `high`,
    element `low`, and the family degenerates to  logsumexp = x, log_softmax = 0, softmax = 1,
